@@ -2,6 +2,8 @@
 // byte strings, sample corpus access.
 #pragma once
 #include "NifFile.hpp"
+#include "corpus.hpp"
+#include "diff.hpp"
 #include "mininif.hpp"
 
 #include <dirent.h>
@@ -78,75 +80,6 @@ inline int saveBytes(nifly::NifFile& nif, std::string& out, const nifly::NifSave
 	int rc = nif.Save(os, opts);
 	out = os.str();
 	return rc;
-}
-
-struct CorpusFile {
-	std::string name;
-	std::string bytes;
-};
-
-inline const std::vector<CorpusFile>& corpus(const std::string& dir = "/verif/corpus") {
-	static std::vector<CorpusFile> files;
-	static bool loaded = false;
-	if (!loaded) {
-		loaded = true;
-		std::vector<std::string> names;
-		if (DIR* d = opendir(dir.c_str())) {
-			while (auto e = readdir(d)) {
-				std::string n = e->d_name;
-				if (n.size() > 4 && n.substr(n.size() - 4) == ".nif")
-					names.push_back(n);
-			}
-			closedir(d);
-		}
-		std::sort(names.begin(), names.end());
-		for (auto& n : names) {
-			std::ifstream f(dir + "/" + n, std::ios::binary);
-			std::stringstream ss;
-			ss << f.rdbuf();
-			std::string shortName = n;
-			if (shortName.rfind("TestNifFile_", 0) == 0)
-				shortName = shortName.substr(12);
-			shortName = shortName.substr(0, shortName.size() - 4);
-			files.push_back({shortName, ss.str()});
-		}
-	}
-	return files;
-}
-
-// First differing block between two files (by MiniNif); "-" if not locatable
-inline std::string firstDiff(const std::string& a, const std::string& b) {
-	if (a == b)
-		return "same";
-	auto fa = mini::parse(a), fb = mini::parse(b);
-	if (!fa.ok || !fb.ok)
-		return "unparsable";
-	if (fa.numBlocks != fb.numBlocks)
-		return "block-count " + std::to_string(fa.numBlocks) + "->" + std::to_string(fb.numBlocks);
-	if (fa.typeNames != fb.typeNames)
-		return "type-table";
-	if (fa.typeIndex != fb.typeIndex)
-		return "type-indices";
-	if (fa.strings != fb.strings)
-		return "string-table";
-	if (fa.ver.hasSizes()) {
-		for (size_t i = 0; i < fa.payloads.size(); i++)
-			if (fa.payloads[i] != fb.payloads[i]) {
-				size_t k = 0;
-				while (k < fa.payloads[i].size() && k < fb.payloads[i].size() && fa.payloads[i][k] == fb.payloads[i][k])
-					k++;
-				return "block " + std::to_string(i) + " " + fa.typeOf(i) + " @" + std::to_string(k) + " size "
-					   + std::to_string(fa.payloads[i].size()) + "->" + std::to_string(fb.payloads[i].size());
-			}
-		if (fa.footer != fb.footer)
-			return "footer";
-		return "header";
-	}
-	size_t k = 0;
-	while (k < a.size() && k < b.size() && a[k] == b[k])
-		k++;
-	return "byte " + std::to_string(k) + " (headerEnd " + std::to_string(fa.headerEnd) + ") size "
-		   + std::to_string(a.size()) + "->" + std::to_string(b.size());
 }
 
 } // namespace vf
